@@ -343,7 +343,13 @@ class Runner:
                                   not any(l == k[1] for k in ctx.known_hits)]
                     if cut or ctx.ended_early:
                         bad_checks = []
-                    if not ok or bad_checks:
+                    if ok and bad_checks:
+                        # the real build fails a check on this witness although the symbolic run did not flag it (history kept by
+                        # the real lru caches / shared objects that the engine by-passes, or a concrete-only family): the real run
+                        # is the ground truth for a concrete input - hand it over as a counterexample (it is replayed once more)
+                        for l in bad_checks:
+                            res["cand"].append((l, wit, "failed on the real build during concordance"))
+                    elif not ok or bad_checks:
                         res["conc_bad"].append(dict(witness=enc_val(wit), sym=enc_val(sobs), real=enc_val(robs),
                                                     failed_only_on_real=bad_checks))
                 except (Inconclusive, HarnessError) as e:
